@@ -7,7 +7,9 @@ It interprets the AST of one small function itself; nothing from the repository 
 executed.  Values: None, bool, small ints, str (opaque; every f-string evaluates to the marker
 MSG), tuples/lists of those.  Fragment:
 
-  expressions  Name, Constant, Tuple/List, Compare (is, is not, ==, !=, <, <=, >, >=, in, not in),
+  expressions  any sub-expression bound in the environment by its normalised text (symbolic
+               input), walrus, + and - on numbers, calls of environment-bound callables (recorders),
+               Name, Constant, Tuple/List, Compare (is, is not, ==, !=, <, <=, >, >=, in, not in),
                BoolOp, not, IfExp, f-strings (-> MSG), isinstance(x, int|str|tuple|list|bool|float)
                or a tuple of those, len(x), bool(x)
   statements   If, Return, Assign (name or tuple-unpacking targets), Expr(docstring / logging),
@@ -55,8 +57,22 @@ class MiniEval:
                             f"`{norm(node)[:80]}` {why}")
 
     def ev(self, e):
+        if not isinstance(e, (ast.Constant, ast.Name)):
+            t = norm(e)
+            if t in self.env:           # a whole sub-expression bound as a symbolic input
+                v = self.env[t]
+                return v
         if isinstance(e, ast.Constant):
             return e.value
+        if isinstance(e, ast.NamedExpr) and isinstance(e.target, ast.Name):
+            self.env[e.target.id] = self.ev(e.value)
+            return self.env[e.target.id]
+        if isinstance(e, ast.BinOp) and isinstance(e.op, (ast.Add, ast.Sub)):
+            l, r = self.ev(e.left), self.ev(e.right)
+            if isinstance(l, bool) or isinstance(r, bool) or not isinstance(l, (int, float)) \
+                    or not isinstance(r, (int, float)):
+                raise _Fault('TypeError')
+            return l + r if isinstance(e.op, ast.Add) else l - r
         if isinstance(e, ast.Name):
             if e.id in self.env:
                 return self.env[e.id]
@@ -102,6 +118,8 @@ class MiniEval:
                     return False
                 left = right
             return True
+        if isinstance(e, ast.Call) and norm(e.func) in self.env and callable(self.env[norm(e.func)]):
+            return self.env[norm(e.func)](*[self.ev(a) for a in e.args])
         if isinstance(e, ast.Call) and isinstance(e.func, ast.Name) and not e.keywords:
             if e.func.id == 'isinstance' and len(e.args) == 2:
                 v = self.ev(e.args[0])
@@ -148,7 +166,10 @@ class MiniEval:
             elif isinstance(st, ast.Expr) and isinstance(st.value, ast.Call) and \
                     norm(st.value.func).startswith(('_logger.', 'self.log_', 'logging.')):
                 continue
-            elif isinstance(st, ast.Pass):
+            elif isinstance(st, ast.Expr) and isinstance(st.value, ast.Call) and \
+                    norm(st.value.func) in self.env:
+                self.ev(st.value)
+            elif isinstance(st, (ast.Pass, ast.Assert)):
                 continue
             elif isinstance(st, ast.Raise):
                 exc = st.exc
